@@ -30,12 +30,13 @@ def rmseSqVirial (rs : List α) : α := mse rs
 
 /-- one parameter of `initial_guess_bounds`; `none` = -inf / +inf -/
 def clamp (lo hi : Option α) (v : α) : α :=
-  let v := match lo with
+  let r := match lo with
     | some l => if v < l then l else v
     | none => v
+  -- the second `if` of the Python code tests the ORIGINAL value again
   match hi with
-  | some h => if v > h then h else v
-  | none => v
+  | some h => if v > h then h else r
+  | none => r
 
 def inBounds (lo hi : Option α) (v : α) : Prop :=
   (∀ l, lo = some l → l ≤ v) ∧ (∀ h, hi = some h → v ≤ h)
